@@ -4,6 +4,7 @@ import OsloPolicy.Spec.Grammar
 import OsloPolicy.Model.Validate
 import OsloPolicy.Model.Loader
 import OsloPolicy.Model.Sched
+import OsloPolicy.Model.External
 import OsloPolicy.Generated.PyTables
 /-
 JSON-lines driver: one request per line on stdin, one answer per line on stdout.
@@ -96,11 +97,16 @@ def envOf (j : Json) : Env :=
     lit := fun k => match lits.getObjVal? (l2s k) with
       | .ok (.str s) => some (s2l s)
       | _ => none
-    remote := fun _ url _ => match rem.getObjVal? (l2s url) with
-      | .ok (.str "timeout") => .raise .runtimeError
-      | .ok (.str "transport") => .raise .transport
-      | .ok (.bool b) => .ret b
-      | _ => .raise .transport }
+    remote := fun k url _ =>
+      let post : PostResult := match rem.getObjVal? (l2s url) with
+        | .ok (.str "timeout") => .timeout
+        | .ok (.str "transport") => .transportError
+        | .ok r => (match r.getObjVal? "body" with
+            | .ok (.str b) => .reply (s2l b) (getNatD r "status" 200)
+            | _ => .transportError)
+        | _ => .transportError
+      let tls : TlsFiles := ⟨getBoolD j "cert_ok" true, getBoolD j "key_ok" true, getBoolD j "ca_ok" true⟩
+      if k = "https".toList then httpsDecision tls post else httpDecision post }
 
 def rulesOf (j : Json) : Except String Rules := do
   let ents ← (getArrD j "rules").toList.mapM fun kv => match kv with
